@@ -171,11 +171,10 @@ package protocol
 //@ spec func rqP(r, p) = vval(sdata(r), p + rqW1(r, p) + rqL(r, p))
 //@ spec func rqW2(r, p) = vw(sel(sdata(r), p + rqW1(r, p) + rqL(r, p)))
 //@ guard make uint8(n) in ReadTCPRequest
-//@   props C04 C03 C06
+//@   props C04 C03
 //@   requires n >= 1 && n <= 2048
-// (C06 relies on it too: the request header consumes exactly its own bytes, the relayed stream starts right behind it)
 //@ func ReadTCPRequest
-//@   props C04 C03 C06
+//@   props C04 C03
 //@   ensures isnil(ret1) ==> rqL(r, old(spos(r))) >= 1 && rqL(r, old(spos(r))) <= 2048 && rqP(r, old(spos(r))) <= 4096
 //@   ensures isnil(ret1) ==> len(ret0) == rqL(r, old(spos(r))) && forall(k, 0, len(ret0), ret0[k] == sel(sdata(r), old(spos(r)) + rqW1(r, old(spos(r))) + k))
 //@   ensures isnil(ret1) ==> spos(r) == old(spos(r)) + rqW1(r, old(spos(r))) + rqL(r, old(spos(r))) + rqW2(r, old(spos(r))) + rqP(r, old(spos(r)))
@@ -194,10 +193,10 @@ package protocol
 //@ spec func rsP(r, p) = vval(sdata(r), p + 1 + rsW1(r, p) + rsM(r, p))
 //@ spec func rsW2(r, p) = vw(sel(sdata(r), p + 1 + rsW1(r, p) + rsM(r, p)))
 //@ guard make uint8(n) in ReadTCPResponse
-//@   props C04 C03 C06
+//@   props C04 C03
 //@   requires n >= 1 && n <= 2048
 //@ func ReadTCPResponse
-//@   props C04 C03 C06
+//@   props C04 C03
 //@   ensures isnil(ret2) ==> rsM(r, old(spos(r))) <= 2048 && rsP(r, old(spos(r))) <= 4096 && ret0 == (sel(sdata(r), old(spos(r))) == 0)
 //@   ensures isnil(ret2) ==> len(ret1) == rsM(r, old(spos(r))) && forall(k, 0, len(ret1), ret1[k] == sel(sdata(r), old(spos(r)) + 1 + rsW1(r, old(spos(r))) + k))
 //@   ensures isnil(ret2) ==> spos(r) == old(spos(r)) + 1 + rsW1(r, old(spos(r))) + rsM(r, old(spos(r))) + rsW2(r, old(spos(r))) + rsP(r, old(spos(r)))
